@@ -370,21 +370,22 @@ Proof. intros N L. rewrite (flatten_now e N). destruct e; simpl in *; try discri
 Section EndToEnd.
   Context {S : Type}.
   Variables lik vlik : nat -> S -> res.
+  Variable modf : Z -> item -> item.     (* what modify_before_fit does to a member, in place *)
 
   (* every outcome of every history on the sum denoted by ANY bracketing e is the outcome for the
      analyses of e in the order written, member i reading sub-instance i when e carries models *)
   Theorem sum_end_to_end (e : expr) (fm : bool) (ops : list (op (X := S * list S))) :
     nofree e = true -> is_leaf e = false ->
-    Forall2 (out_ok (item_lik lik) (item_lik vlik) (spec_items (spec_kind (leaves e)) (leaves e)))
-            (calls ops)
-            (snd (run (item_lik lik) (item_lik vlik) true fm (items_of (eval cfg_now e)) st_init ops)).
+    Forall2 (out_ok (item_lik lik) (item_lik vlik))
+            (trace modf (spec_items (spec_kind (leaves e)) (leaves e)) ops)
+            (snd (run (item_lik lik) (item_lik vlik) modf true fm (items_of (eval cfg_now e)) st_init ops)).
   Proof. intros N L. rewrite (items_of_sum e N L). simpl items_of. apply history_free_now. Qed.
 
   Theorem free_end_to_end (e : expr) (fm : bool) (ops : list (op (X := S * list S))) :
     nofree e = true -> is_leaf e = false ->
-    Forall2 (out_ok (item_lik lik) (item_lik vlik) (spec_items KFree (leaves e)))
-            (calls ops)
-            (snd (run (item_lik lik) (item_lik vlik) true fm (items_of (eval cfg_now (Free e))) st_init ops)).
+    Forall2 (out_ok (item_lik lik) (item_lik vlik))
+            (trace modf (spec_items KFree (leaves e)) ops)
+            (snd (run (item_lik lik) (item_lik vlik) modf true fm (items_of (eval cfg_now (Free e))) st_init ops)).
   Proof.
     intros N L. change (eval cfg_now (Free e)) with (with_free (eval cfg_now e)).
     rewrite (items_of_sum e N L), with_free_spec. simpl items_of. apply history_free_now.
